@@ -329,7 +329,7 @@ impl Scenario {
     const RESIZE: usize = 4;
     const STBM: usize = 3;
     const ORIGIN: usize = 2;
-    const LEAVE: usize = 6;
+    const LEAVE: usize = 8;
 
     pub fn count(&self) -> usize {
         Self::PRE * Self::ENTER * Self::RESIZE * Self::STBM * Self::ORIGIN * Self::LEAVE * Self::RESIZE * self.commands.len() * self.mid.len()
@@ -386,8 +386,9 @@ impl Scenario {
             s.push_str("\x1b[?6h");
         }
         s.push_str("\x1b[2;2HQ\x1b7");
-        // (the last three: leaving merged with an origin-mode reset in one mode list, either order)
-        s.push_str(["", "\x1b[?1047l", "\x1b[?1049l", "\x1b[?1047;6l", "\x1b[?1049;6l", "\x1b[?6;1047l"][leave]);
+        // (then: leaving merged with an origin-mode reset in one mode list, either order; leaving with the
+        // cursor in the wrap-pending position)
+        s.push_str(["", "\x1b[?1047l", "\x1b[?1049l", "\x1b[?1047;6l", "\x1b[?1049;6l", "\x1b[?6;1047l", "\x1b[1;999HZ\x1b[?1047l", "\x1b[1;999HZ\x1b[?47l"][leave]);
         h.calls.push(Call::FeedStr(std::mem::take(&mut s)));
         if let Some((c2, r2)) = self.resize(rs2, c, r) {
             h.calls.push(Call::Resize(c2, r2));
